@@ -53,3 +53,34 @@ CHECKS["C01"] = {
                   "vector; an independent reference verifier must accept the same bytes. Held-on-K-executions, not a proof.",
     "level_note": "Assumes the sampled lattice and value classes are representative; trusted base: dalek scalar/point arithmetic, merlin STROBE, harness free-module group.",
 }
+
+CHECKS["C02"] = {
+    "title": "Soundness: the verifier enforces exactly the BP+ relation",
+    "level": "exploration",
+    "technique": "runtime monitoring: verifier's final MSM captured over a free-module group and compared coefficient-by-coefficient with an explicit-folding reference; differential verdict oracle incl. dishonest provers; challenge events at the merlin boundary",
+    "design_ref": "DESIGN.md section 4 C02",
+    "legs": [
+        {"name": "fm-coeff", "shards": 16},
+        {"name": "fm-verdict", "shards": 16},
+        {"name": "ris-verdict", "shards": 16},
+    ],
+    "rule": "fm-coeff: one case = one (configuration, proof family) or small mixed batch whose final multiscalar multiplication was captured; "
+            "non-trivial = the library reached the final check and its residual vector was compared with w * reference residual on every coordinate; "
+            "verdict legs: one case = one (instance, input) pair where input ranges over honest, every single-element alteration, random well-formed, "
+            "and four dishonest-prover strategies; distinct = distinct (group, instance, input name)",
+    "require": {"quick": {"final_msm_captured": 300, "coefficients_compared": 50000, "verdict_comparisons": 4000, "dishonest_provers": 200,
+                          "challenge_sequences_compared": 100, "batches_compared": 30},
+                "thorough": {"final_msm_captured": 8000, "coefficients_compared": 2000000, "verdict_comparisons": 100000, "dishonest_provers": 3000,
+                             "challenge_sequences_compared": 1000, "batches_compared": 300}},
+    "assumptions": COMMON_ASSUMPTIONS + [
+        "decides exactness of the verifier's linear combination at sampled random points per configuration (Schwartz-Zippel), not the cryptographic soundness theorem of the paper",
+        "for bits*aggregation = 1 no forged proof is constructible through the public API (from_bytes refuses zero rounds); only honest and statement-altered inputs are used there",
+        "the reference treats identity points in A, A1, B, L, R, H, G as refusals, as the documented transcript rule does",
+    ],
+    "level_text": "Observes what the real verifier computes: over the free-module group the final multiscalar multiplication is logged with every "
+                  "scalar, so the weight the verifier attaches to every generator, proof element and commitment is compared with an independent "
+                  "explicit-folding evaluation of the published relation, on fully symbolic proofs (every coordinate generically non-zero), on honest and "
+                  "one-element-replaced proofs, and on mixed batches; on both groups the accept/reject verdict is compared with the reference on honest, "
+                  "altered, random and dishonest-prover inputs (digit 2, value-promise = 2^n, value < promise, radix 3).",
+    "level_note": "Exploration by sampling; a wrong coefficient agrees with the reference at a random point with probability < 2^-230. Trusted: refbp (written from the paper), dalek, merlin.",
+}
